@@ -4,6 +4,7 @@
 package openapi
 
 import (
+	"bytes"
 	"encoding/json"
 	"fmt"
 	"os"
@@ -634,6 +635,13 @@ const (
 	kindKey = "kind"
 )
 
+// dropParsedSchema forgets everything that was parsed for the previously selected
+// schema (definitions, per-type indexes, parse status), so that the next initSchema
+// starts from scratch. The caller must hold schemaLock.
+func dropParsedSchema() {
+	globalSchema = openapiData{noUseBuiltInSchema: globalSchema.noUseBuiltInSchema}
+}
+
 // SetSchema sets the kubernetes OpenAPI schema version to use
 func SetSchema(openAPIField map[string]string, schema []byte, reset bool) error {
 	schemaLock.Lock()
@@ -652,6 +660,10 @@ func SetSchema(openAPIField map[string]string, schema []byte, reset bool) error 
 		if versionProvided {
 			return fmt.Errorf("builtin version and custom schema provided, cannot use both")
 		}
+		if customSchema != nil && !bytes.Equal(customSchema, schema) {
+			// a different custom schema was in use: its definitions must not leak into this one
+			dropParsedSchema()
+		}
 		customSchema = schema
 		kubernetesOpenAPIVersion = "custom"
 		// if the schema is changed, initSchema should parse the new schema
@@ -662,13 +674,23 @@ func SetSchema(openAPIField map[string]string, schema []byte, reset bool) error 
 	// use builtin version
 	kubernetesOpenAPIVersion = version
 	if kubernetesOpenAPIVersion == "" {
+		if customSchema != nil {
+			// a custom schema installed by an earlier caller must not outlive the
+			// reset: go back to the default built-in schema
+			customSchema = nil
+			dropParsedSchema()
+		}
 		return nil
 	}
 	if _, ok := kubernetesapi.OpenAPIMustAsset[kubernetesOpenAPIVersion]; !ok {
 		return fmt.Errorf("the specified OpenAPI version is not built in")
 	}
 
-	customSchema = nil
+	if customSchema != nil {
+		// the definitions of the custom schema must not leak into the built-in one
+		customSchema = nil
+		dropParsedSchema()
+	}
 	// if the schema is changed, initSchema should parse the new schema
 	globalSchema.schemaInit = false
 	return nil
